@@ -144,7 +144,8 @@ def _opt_consts(o: OptDesc) -> Dict[str, Any]:
 
 
 _CONST_NODES = (ast.Constant, ast.Set, ast.List, ast.Tuple, ast.Compare, ast.BoolOp, ast.UnaryOp, ast.And, ast.Or, ast.Not,
-                ast.In, ast.NotIn, ast.Is, ast.IsNot, ast.Eq, ast.NotEq, ast.Lt, ast.LtE, ast.Gt, ast.GtE, ast.Load, ast.USub)
+                ast.In, ast.NotIn, ast.Is, ast.IsNot, ast.Eq, ast.NotEq, ast.Lt, ast.LtE, ast.Gt, ast.GtE, ast.Load, ast.USub,
+                ast.Subscript, ast.Slice)
 
 
 def _const_test(repo: Repo, e: ast.expr):
@@ -176,6 +177,16 @@ def _simplify(repo: Repo, stmts: List[ast.stmt], notes: List[str]) -> List[ast.s
                 new.body = _simplify(repo, st.body, notes) or [ast.Pass()]
                 new.orelse = _simplify(repo, st.orelse, notes)
                 out.append(new)
+        elif isinstance(st, ast.For) and isinstance(st.target, ast.Name) and not isinstance(st.iter, (ast.List, ast.Tuple)) \
+                and all(isinstance(n, _CONST_NODES) for n in ast.walk(st.iter)):
+            try:
+                vals = list(_const_test(repo, st.iter))
+            except Exception:
+                out.append(st)
+                continue
+            for v in vals:
+                body = [_Rename({st.target.id: ast.Constant(value=v)}).visit(copy.deepcopy(b)) for b in st.body]
+                out += _simplify(repo, body, notes)
         elif isinstance(st, ast.For) and isinstance(st.iter, (ast.List, ast.Tuple)) and isinstance(st.target, ast.Name) \
                 and all(isinstance(x, ast.Constant) for x in st.iter.elts):
             for x in st.iter.elts:
@@ -249,10 +260,83 @@ def _loops_over_options(fn: ast.FunctionDef) -> List[ast.For]:
     return [st for st in fn.body if isinstance(st, ast.For) and norm(st.iter) == "self.options.values()" and isinstance(st.target, ast.Name)]
 
 
+def _bytemap_var(loop: ast.For) -> Optional[str]:
+    """The list the loop indexes with `<option>.byte`."""
+    ov = loop.target.id
+    for n in ast.walk(loop):
+        if isinstance(n, ast.Subscript) and norm(n.slice) == f"{ov}.byte" and isinstance(n.value, ast.Name):
+            return n.value.id
+    return None
+
+
+class _RenameName(ast.NodeTransformer):
+    def __init__(self, old: str, new: str):
+        self.old, self.new = old, new
+
+    def visit_Name(self, node):
+        if node.id == self.old:
+            return ast.copy_location(ast.Name(id=self.new, ctx=node.ctx), node)
+        return node
+
+
+def _relevant(stmts: List[ast.stmt], roots: Tuple[str, ...]) -> List[ast.stmt]:
+    """Statements that (transitively) feed a store into one of the `roots` containers; bookkeeping such as the record
+    length counter is dropped (decided by R3)."""
+    rel = set(roots)
+    changed = True
+    while changed:
+        changed = False
+        for st in stmts:
+            for n in ast.walk(st):
+                if isinstance(n, (ast.Assign, ast.AugAssign)):
+                    tg = n.targets if isinstance(n, ast.Assign) else [n.target]
+                    roots_hit = False
+                    for t in tg:
+                        base = t
+                        while isinstance(base, (ast.Subscript, ast.Attribute)):
+                            base = base.value
+                        key = norm(t.value) if isinstance(t, ast.Subscript) else (t.id if isinstance(t, ast.Name) else norm(t))
+                        if key in rel or (isinstance(t, ast.Name) and t.id in rel) or (isinstance(base, ast.Name) and base.id in rel):
+                            roots_hit = True
+                    if roots_hit:
+                        for m in ast.walk(n.value):
+                            if isinstance(m, ast.Name) and m.id not in rel:
+                                rel.add(m.id)
+                                changed = True
+
+    def keep(st: ast.stmt) -> bool:
+        if isinstance(st, ast.If):
+            return any(keep(x) for x in st.body + st.orelse)
+        if isinstance(st, (ast.Assign, ast.AugAssign)):
+            tg = st.targets if isinstance(st, ast.Assign) else [st.target]
+            for t in tg:
+                base = t
+                while isinstance(base, (ast.Subscript, ast.Attribute)):
+                    base = base.value
+                key = norm(t.value) if isinstance(t, ast.Subscript) else ""
+                if key in rel or (isinstance(base, ast.Name) and base.id in rel):
+                    return True
+            return False
+        return True
+    out = []
+    for st in stmts:
+        if isinstance(st, ast.If):
+            new = copy.copy(st)
+            new.body = [x for x in _relevant(st.body, tuple(rel))] or [ast.Pass()]
+            new.orelse = _relevant(st.orelse, tuple(rel))
+            if all(isinstance(x, ast.Pass) for x in new.body) and not new.orelse:
+                continue
+            out.append(new)
+        elif keep(st):
+            out.append(st)
+    return out
+
+
 def _bytemap_zero_init(repo: Repo, wfn: ast.FunctionDef, wloop: ast.For) -> bool:
-    """Is `bytemap` all zeros when the writer's loop starts?  (`bytemap = [0] * N` and nothing else before the loop.)"""
+    """Is the byte map all zeros when the writer's loop starts?  (`bytemap = [0] * N` and nothing else before the loop.)"""
+    var = _bytemap_var(wloop) or "bytemap"
     pre = [st for st in wfn.body if st.lineno < wloop.lineno]
-    touching = [st for st in pre if any(isinstance(n, ast.Name) and n.id == "bytemap" for n in ast.walk(st))]
+    touching = [st for st in pre if any(isinstance(n, ast.Name) and n.id == var for n in ast.walk(st))]
     if len(touching) != 1 or not isinstance(touching[0], ast.Assign):
         return False
     try:
@@ -281,12 +365,13 @@ def pack_unpack(repo: Repo, rep, P: str, rule: str):
         ev = BitEval(repo, mod, env)
         try:
             for lp in _loops_over_options(wfn):
+                bvar = _bytemap_var(lp) or "bytemap"
                 for o in opts:
                     consts = _opt_consts(o)
-                    body = [_Inst(lp.target.id, consts).visit(copy.deepcopy(s)) for s in lp.body]
+                    body = [_RenameName(bvar, "bytemap").visit(_Inst(lp.target.id, consts).visit(copy.deepcopy(s))) for s in lp.body]
                     for s in body:
                         ast.fix_missing_locations(s)
-                    ev.run(_simplify(repo, body, []))
+                    ev.run(_relevant(_simplify(repo, body, []), ("bytemap",)))
         except Unsupported as e:
             rep.inconclusive(f"{P}.{rule}", con, "", f"writer loop not evaluable: {e}", f"{rel}:{wloop.lineno}")
             continue
@@ -301,9 +386,10 @@ def pack_unpack(repo: Repo, rep, P: str, rule: str):
         try:
             notes: List[str] = []
             for lp in _loops_over_options(rfn):
+                bvar = _bytemap_var(lp) or "bytemap"
                 for o in opts:
                     consts = _opt_consts(o)
-                    body = [_Inst(lp.target.id, consts).visit(copy.deepcopy(s)) for s in lp.body]
+                    body = [_RenameName(bvar, "bytemap").visit(_Inst(lp.target.id, consts).visit(copy.deepcopy(s))) for s in lp.body]
                     body = _expand_descriptor_sets(repo, body, consts)
                     for s in body:
                         ast.fix_missing_locations(s)
@@ -377,6 +463,31 @@ def record_length(repo: Repo, rep, P: str):
                     verdict = (p == alg.Poly.sym("byte") + 1, norm(n))
                 except alg.NotAlgebraic:
                     verdict = (None, norm(n))
+    if length_var is None:
+        # if option.byte >= L: L = option.byte + 1      (also `> L - 1`, `option.byte + 1 > L`)
+        for n in (ast.walk(wloop) if wloop is not None else []):
+            if isinstance(n, ast.If) and not n.orelse and len(n.body) == 1 and isinstance(n.body[0], ast.Assign) \
+                    and isinstance(n.body[0].targets[0], ast.Name) and isinstance(n.test, ast.Compare) and len(n.test.ops) == 1:
+                v = n.body[0].targets[0].id
+
+                def lf(e, v=v):
+                    if norm(e) == f"{ovar}.byte":
+                        return alg.Poly.sym("byte")
+                    if isinstance(e, ast.Name) and e.id == v:
+                        return alg.Poly.sym("L")
+                    return None
+                try:
+                    newv = alg.to_poly(n.body[0].value, lf)
+                    d = alg.to_poly(n.test.left, lf) - alg.to_poly(n.test.comparators[0], lf)
+                except alg.NotAlgebraic:
+                    continue
+                op = type(n.test.ops[0])
+                base = alg.Poly.sym("byte") - alg.Poly.sym("L")
+                # the update happens exactly when byte + 1 > L, i.e. byte - L >= 0
+                cond_ok = (op is ast.GtE and d == base) or (op is ast.Gt and d == base + 1) or \
+                          (op is ast.LtE and d == -base) or (op is ast.Lt and d == -(base + 1))
+                length_var = v
+                verdict = (cond_ok and newv == alg.Poly.sym("byte") + 1, norm(n))
     if length_var is None or verdict is None or verdict[0] is None:
         rep.inconclusive(f"{P}.R3", wcon, verdict[1] if verdict else "", "computation of the record length not recognised", f"{rel}:{wfn.lineno}")
     elif not verdict[0]:
@@ -434,42 +545,7 @@ def descriptor_algebra(repo: Repo, rep, P: str):
     rel = opt.file.rel
     g, s = repo.own_method(opt, "__get__"), repo.own_method(opt, "__set__")
     rep.func("rv.option.Option.__get__ / __set__")
-    gs, ss = norm(g), norm(s)
-    # getter: inverted → not value
-    if "if self.inverted:" in gs and "return not value" in gs and "value = instance.option_values[self.name]" in gs:
-        rep.ok(f"{P}.R4", f"{rel}:Option.__get__", "inverted → not stored", "presents the logical value")
-    else:
-        rep.violation(f"{P}.R4", f"{rel}:Option.__get__", gs[:200], "inverted options must present `not stored`", f"{rel}:{g.lineno}")
-    # setter structure
-    vparam = [a.arg for a in s.args.args if a.arg not in ("self",)][1]
-    clamp_ok = f"{vparam} = max(self.min, min(self.max, {vparam}))" in ss
-    if clamp_ok:
-        rep.ok(f"{P}.R4", f"{rel}:Option.__set__", "value = max(self.min, min(self.max, value))", "bounded options are clamped into [min, max]")
-    else:
-        rep.violation(f"{P}.R4", f"{rel}:Option.__set__", ss[:200], "bounded options must be clamped with max(min, min(max, value))", f"{rel}:{s.lineno}")
-    first_if = next((st for st in s.body if isinstance(st, ast.If)), None)
-    guard_ok = first_if is not None and norm(first_if.test) in ("None not in {self.min, self.max}", "self.min is not None and self.max is not None")
-    if guard_ok:
-        rep.ok(f"{P}.R4", f"{rel}:Option.__set__", norm(first_if.test), "clamp taken whenever both bounds are declared (0 is a bound)")
-    else:
-        rep.violation(f"{P}.R4", f"{rel}:Option.__set__", norm(first_if.test) if first_if else "",
-                      "the clamp must be taken whenever both bounds are declared, including a bound of 0", f"{rel}:{s.lineno}")
-    inv_store = "if self.inverted:" in ss and f"{vparam} = not {vparam}" in ss and f"{vparam} = bool({vparam})" in ss
-    if inv_store:
-        rep.ok(f"{P}.R4", f"{rel}:Option.__set__", "size == 1: value = bool(value); inverted: value = not value",
-               "get(set(b)) = not(not b) = b for inverted flags")
-    else:
-        rep.violation(f"{P}.R4", f"{rel}:Option.__set__", ss[:240], "inverted flags must be stored negated (and presented negated)", f"{rel}:{s.lineno}")
-    if f"instance.option_values[self.name] = {vparam}" in ss:
-        rep.ok(f"{P}.R4", f"{rel}:Option.__set__", "instance.option_values[self.name] = value", nontrivial=False)
-    else:
-        rep.violation(f"{P}.R4", f"{rel}:Option.__set__", ss[:200], "the value must be stored under the option's own name", f"{rel}:{s.lineno}")
-    excl = "for other in self.exclusive_of:" in ss and "instance.option_values[other] = False" in ss
-    if excl:
-        rep.ok(f"{P}.R4", f"{rel}:Option.__set__", "for other in self.exclusive_of: option_values[other] = False", "exclusive partners are switched off")
-    else:
-        rep.violation(f"{P}.R4", f"{rel}:Option.__set__", ss[:240], "mutually exclusive options must be switched off when one is set", f"{rel}:{s.lineno}")
-    setter_per_option(repo, rep, P, s)
+    descriptor_eval(repo, rep, P)
     seeding_rule(repo, rep, P)
     # per option declarations
     for ci, opts in option_classes(repo):
@@ -508,96 +584,166 @@ def descriptor_algebra(repo: Repo, rep, P: str):
                 rep.violation(f"{P}.R4", con, f"default={d!r} size={size}", "default does not fit the bit field", where)
 
 
-def setter_per_option(repo: Repo, rep, P: str, s: ast.FunctionDef):
-    """Instantiate Option.__set__ with each option's constants: what is stored as a function of the assigned value."""
+def _method_instance(repo: Repo, opt: ClassInfo, name: str, consts: Dict[str, Any], renames: Dict[str, str], result: Optional[str]):
+    """Statements of Option.<name> flattened, with self.<field> replaced by this option's constants, parameters renamed,
+    `return` eliminated into `result`, constant branches folded, loops over literal lists unrolled, change hooks dropped."""
+    from .. import inline
+    fn = inline.flatten(repo, opt, repo.own_method(opt, name))
+    ps = [a.arg for a in fn.args.args]
+    body = [b for b in copy.deepcopy(fn.body) if not (isinstance(b, ast.Expr) and isinstance(b.value, ast.Constant))]
+    body = [_Inst(ps[0], consts).visit(b) for b in body]
+    body = [_Rename({k: ast.Name(id=v, ctx=ast.Load()) for k, v in renames.items()}).visit(b) for b in body]
+    body, _ = inline._eliminate_returns(body, result)
+    for b in body:
+        ast.fix_missing_locations(b)
+    notes: List[str] = []
+    return _simplify(repo, body, notes), ps
+
+
+def descriptor_eval(repo: Repo, rep, P: str):
+    """Option.__set__ / __get__ evaluated per kind of option in the bit domain: what is stored for an assigned value, what is
+    presented for a stored value, and what happens to exclusive partners."""
     opt = repo.cls("Option", module="rv.option")
     rel = opt.file.rel
-    vparam = [a.arg for a in s.args.args if a.arg not in ("self",)][1]
-    # statements up to (and excluding) the store
-    pre = []
-    for st in stmts_of(s):
-        if isinstance(st, ast.Assign) and any(isinstance(t, ast.Subscript) and "option_values" in norm(t) for t in st.targets):
-            break
-        pre.append(st)
+    s = repo.own_method(opt, "__set__")
     seen = set()
     n = 0
     for ci, opts in option_classes(repo):
         for o in opts:
-            consts = {"min": o.get("min"), "max": o.get("max"), "size": _int(o, "size"), "inverted": bool(o.get("inverted")),
-                      "name": o.name, "exclusive_of": list(o.get("exclusive_of") or [])}
-            key = (consts["min"], consts["max"], consts["size"], consts["inverted"])
+            consts = _opt_consts(o)
+            size, mn, mx, inv = consts["size"], consts["min"], consts["max"], consts["inverted"]
+            key = (mn, mx, size, inv, bool(consts["exclusive_of"]))
             if key in seen:
                 continue
             seen.add(key)
             n += 1
+            text = f"[size={size} min={mn} max={mx} inverted={inv} exclusive={consts['exclusive_of']}] e.g. {ci.name}.{o.name}"
+            scon, gcon = f"{rel}:Option.__set__", f"{rel}:Option.__get__"
+            skey = f"inst.option_values[{o.name!r}]"
             try:
-                body = [_Inst("self", consts).visit(copy.deepcopy(x)) for x in pre]
-                for x in body:
-                    ast.fix_missing_locations(x)
-                flat = _static_flatten(repo, body)
+                sps = [a.arg for a in s.args.args]
+                sbody, _ = _method_instance(repo, opt, "__set__", consts, {sps[1]: "inst", sps[2]: "v"}, None)
+                gfn = repo.own_method(opt, "__get__")
+                gps = [a.arg for a in gfn.args.args]
+                gbody, _ = _method_instance(repo, opt, "__get__", consts, {gps[1]: "inst"}, "__got")
+                # `if instance is None: return self` is the class-level access
+                gbody = [b for b in gbody if not (isinstance(b, ast.If) and norm(b.test) == "inst is None")] + \
+                        [x for b in gbody if isinstance(b, ast.If) and norm(b.test) == "inst is None" for x in b.orelse]
+                results = {}
+                for width in ((1, 8) if (size == 1 and mn is None) else (max(size or 1, 1) + 4,)):
+                    ev = BitEval(repo, opt, {"v": BV.term("v", width=width)})
+                    for partner in consts["exclusive_of"]:
+                        ev.env[f"inst.option_values[{partner!r}]"] = BV.term(f"old_{partner}", width=1)
+                    ev.run(sbody)
+                    stored = ev.env.get(skey)
+                    ev2 = BitEval(repo, opt, {skey: stored} if stored is not None else {})
+                    ev2.run(gbody)
+                    results[width] = (stored, ev2.env.get("__got"), dict(ev.env))
             except Unsupported as e:
-                rep.inconclusive(f"{P}.R4", f"{rel}:Option.__set__", f"{o.name}: {e}", "setter not reducible for this option", f"{rel}:{s.lineno}")
+                rep.inconclusive(f"{P}.R4", scon, text, f"descriptor not evaluable for this kind of option: {e}", f"{rel}:{s.lineno}")
                 continue
-            steps = [norm(x).replace(" ", "") for x in flat if isinstance(x, ast.Assign) and norm(x.targets[0]) == vparam]
-            others = [norm(x) for x in flat if not (isinstance(x, ast.Assign) and norm(x.targets[0]) == vparam)]
-            size, mn, mx, inv = consts["size"], consts["min"], consts["max"], consts["inverted"]
-            if mn is not None and mx is not None:
-                want = [[f"{vparam}=max({mn},min({mx},{vparam}))"]]
-                what = f"clamped into [{mn}, {mx}]"
-            elif size == 1:
-                want = [[f"{vparam}=bool({vparam})"] + ([f"{vparam}=not{vparam}"] if inv else [])]
-                what = "bool()" + (" then negated (stored form of an inverted flag)" if inv else "")
-            else:
-                want = [[]]
-                what = "stored unchanged"
-            text = f"[size={size} min={mn} max={mx} inverted={inv}] e.g. {ci.name}.{o.name}: {'; '.join(steps) or '(no transformation)'}"
-            ok = steps in want
-            if not ok and mn is None and size and size > 1 and len(steps) == 1:
-                # a clamp to the full field [0, 2**size − 1] is harmless
-                import re
-                m = re.match(rf"^{vparam}=max\(0,min\((.+),{vparam}\)\)$", steps[0])
-                if m:
-                    try:
-                        hi = repo.fold(ast.parse(m.group(1), mode="eval").body)
-                        ok = hi == 2 ** size - 1
-                        if not ok:
-                            rep.violation(f"{P}.R4", f"{rel}:Option.__set__", text,
-                                          f"a {size}-bit option is clamped to [0, {hi}] although its field holds 0..{2 ** size - 1}: "
-                                          f"the representable value(s) above {hi} cannot be set", f"{rel}:{s.lineno}")
-                            continue
-                    except (NotConst, SyntaxError):
-                        pass
-            if ok and not others:
-                rep.ok(f"{P}.R4", f"{rel}:Option.__set__", text, what)
-            else:
-                rep.violation(f"{P}.R4", f"{rel}:Option.__set__", text + (f"; also: {others[:2]}" if others else ""),
-                              f"for this kind of option the assigned value must be {what}; the setter does something else before storing it",
-                              f"{rel}:{s.lineno}")
+            ok = True
+            for width, (stored, got, env) in results.items():
+                if stored is None:
+                    ok = False
+                    rep.violation(f"{P}.R4", scon, text, "the value must be stored under the option's own name", f"{rel}:{s.lineno}")
+                    break
+                if mn is not None and mx is not None:
+                    lb = low_bits_of_single_term(stored)
+                    if lb is None or lb[0] != f"clamp(v,{mn},{mx})":
+                        ok = False
+                        rep.violation(f"{P}.R4", scon, text + f": stored = {stored.show(10)}",
+                                      f"a bounded option must store the assigned value clamped into [{mn}, {mx}] (the clamp is taken whenever both "
+                                      "bounds are declared, including a bound of 0)", f"{rel}:{s.lineno}")
+                elif size == 1:
+                    l0 = stored.lanes[0]
+                    single = all(l == 0 for l in stored.lanes[1:])
+                    if width == 1:
+                        want = bits.N("v", 0) if inv else bits.S("v", 0)
+                        if not single or l0 != want:
+                            ok = False
+                            rep.violation(f"{P}.R4", scon, text + f": stored = {stored.show(4)}",
+                                          "a one-bit option stores bool(value)" + (", negated when the option is declared inverted" if inv else ""),
+                                          f"{rel}:{s.lineno}")
+                        elif got is None or got.lanes[0] != bits.S("v", 0) or any(l != 0 for l in got.lanes[1:]):
+                            ok = False
+                            rep.violation(f"{P}.R4", gcon, text + f": get(set(b)) = {got.show(4) if got is not None else None}",
+                                          "reading an option back must give the logical value that was assigned (inverted options present `not stored`)",
+                                          f"{rel}:{gfn.lineno}")
+                    else:
+                        if not single:
+                            ok = False
+                            rep.violation(f"{P}.R4", scon, text + f": stored = {stored.show(9)}",
+                                          "a one-bit option must be coerced to a boolean before it is stored (an assigned 2 would be masked to 0 on save)",
+                                          f"{rel}:{s.lineno}")
+                else:
+                    lb = low_bits_of_single_term(stored)
+                    full_clamp = lb is not None and size is not None and lb[0] == f"clamp(v,0,{2 ** size - 1})"
+                    if not ((lb is not None and lb[0] == "v" and lb[1] >= (size or 1)) or full_clamp):
+                        ok = False
+                        rep.violation(f"{P}.R4", scon, text + f": stored = {stored.show(10)}",
+                                      f"a {size}-bit option without declared bounds must store the assigned value unchanged", f"{rel}:{s.lineno}")
+                for partner in consts["exclusive_of"]:
+                    pv = env.get(f"inst.option_values[{partner!r}]")
+                    if pv is None or not pv.is_const() or pv.const_value() != 0:
+                        ok = False
+                        rep.violation(f"{P}.R4", scon, text + f": partner {partner} = {pv.show(3) if pv is not None else None}",
+                                      "mutually exclusive options must be switched off when one is set", f"{rel}:{s.lineno}")
+                if not ok:
+                    break
+            if ok:
+                rep.ok(f"{P}.R4", scon, text, "stored / presented / partners as declared")
     rep.count("option_setter_kinds", n, 4)
 
 
 def seeding_rule(repo: Repo, rep, P: str):
     """Module.__init__ seeds every option through its descriptor (so inverted defaults are stored inverted)."""
+    from .. import inline
+    from ..packed import subst_locals
     mod = repo.cls("Module", module="rv.modules.module")
-    init = repo.own_method(mod, "__init__")
+    init = inline.flatten(repo, mod, repo.own_method(mod, "__init__"))
     rel = mod.file.rel
-    loops = [st for st in init.body if isinstance(st, ast.For) and norm(st.iter) in ("self.options.items()", "self.options.values()", "self.options")]
+    kwname = init.args.kwarg.arg if init.args.kwarg else "kw"
+    loops = [st for st in ast.walk(init) if isinstance(st, ast.For) and norm(st.iter) in ("self.options.items()", "self.options.values()", "self.options",
+                                                                                          "self.options.keys()")]
     direct = [n for st in loops for n in ast.walk(st) if isinstance(n, ast.Assign)
               and any(isinstance(t, ast.Subscript) and norm(t.value) == "self.option_values" for t in n.targets)]
-    good = [st for st in loops if norm(ast.Module(body=st.body, type_ignores=[])).replace(" ", "").replace("\n", ";")
-            in ("v=kw.get(k,option.default);setattr(self,k,v)", "setattr(self,k,kw.get(k,option.default))")]
-    src = norm(init)
+    good = []
+    for st in loops:
+        tg = st.target
+        if isinstance(tg, ast.Tuple) and len(tg.elts) == 2:
+            kv, ov = norm(tg.elts[0]), norm(tg.elts[1])
+        elif norm(st.iter).endswith(".values()"):
+            ov = norm(tg)
+            kv = f"{ov}.name"
+        else:
+            kv = norm(tg)
+            ov = f"self.options[{kv}]"
+        for c in ast.walk(st):
+            if isinstance(c, ast.Call) and norm(c.func) == "setattr" and len(c.args) == 3 and norm(c.args[0]) == "self":
+                from ..packed import resolve_in_block
+                name = norm(resolve_in_block(c.args[1], st.body))
+                val = norm(resolve_in_block(c.args[2], st.body)).replace(" ", "")
+                names_ok = name in (kv, f"{ov}.name")
+                vals = {f"{kwname}.get({k},{ov}.default)" for k in (kv, f"{ov}.name")}
+                if names_ok and val in vals:
+                    good.append(st)
+    has_dict = any(isinstance(n, ast.Assign) and any(norm(t) == "self.option_values" for t in n.targets) and isinstance(n.value, (ast.Dict, ast.Call))
+                   for n in ast.walk(init))
     if direct:
         rep.violation(f"{P}.R4", f"{rel}:Module.__init__", norm(direct[0]),
                       "option defaults are written straight into option_values, bypassing the Option descriptor: the default of an "
                       "inverted option is stored un-inverted (it reads back as the opposite of its declared default) and bounds/"
                       "exclusivity are not applied", f"{rel}:{direct[0].lineno}")
-    elif good and "self.option_values = {}" in src:
+    elif good and has_dict:
         rep.ok(f"{P}.R4", f"{rel}:Module.__init__", "for k, option in self.options.items(): setattr(self, k, kw.get(k, option.default))",
                "defaults and keywords go through the descriptor")
-    else:
+    elif not loops:
         rep.violation(f"{P}.R4", f"{rel}:Module.__init__", "option seeding loop",
                       "every option must be seeded with setattr(self, name, keyword-or-default) so that the descriptor applies", f"{rel}:{init.lineno}")
+    else:
+        rep.inconclusive(f"{P}.R4", f"{rel}:Module.__init__", "; ".join(norm(l)[:80] for l in loops), "option seeding loop not recognised",
+                         f"{rel}:{init.lineno}")
 
 
 # ------------------------------------------------------------------------------------ R5
